@@ -12,7 +12,13 @@ fill* (compute | reset | fill)* on the REAL classes and each compute() is compar
       This differential is reported (phase `vs-fresh`) only when (1) found nothing in the same history, i.e. for
       state the reference does not model (e.g. Graph's scale).
 
-fid = "<Class>[<configuration>]/<phase>/<clause>", phase in init | fill-compute | reset | after-reset | vs-fresh."""
+fid = "<Class>[<configuration>]/<phase>/<clause>", phase in init | fill-compute | reset | after-reset | vs-fresh;
+every clause that fails (value, context, bins, n_out_of_range, raises-<Exception>, ...) is a fid of its own, so the
+manifestations of the known Histogram.reset defect (DESIGN section 6 row 7) are told apart.
+
+Not demanded (DESIGN section 9 and docstrings): builtin sum() bit-equality on floats; non-aliasing of yielded objects
+(C04); Count.run / fill_into (C05); the variance beyond a tolerance of 1e-11 * mean of squares; GroupBy keys on
+nested / missing paths (C15); NumpyHistogram (numpy is not installed); FillRequest.reset (C16)."""
 import bisect
 import collections
 import copy
@@ -577,12 +583,16 @@ def mkval(op):
     return d if op[2] is None else (d, copy.deepcopy(op[2]))
 
 
-def outcome(el):
+HANGS = collections.Counter()     # configuration -> number of 2 s time-outs; after 3 its remaining histories are skipped
+
+
+def outcome(el, label=None):
     """("yield", [values]) | ("raise", exception name) of list(el.compute())"""
     try:
         with watchdog(2):
             return ("yield", list(el.compute()))
     except Timeout:
+        HANGS[label] += 1
         return ("raise", "NON-TERMINATION")
     except Exception as e:
         return ("raise", type(e).__name__)
@@ -686,13 +696,14 @@ def run_history(label, ops):
                 with watchdog(2):
                     el.fill(v)
             except Timeout:
+                HANGS[label] += 1
                 fail(phase, "fill-non-termination", "fill(%r) did not return within 2 s" % (v,))
                 return fails
             except Exception as e:
                 fail(phase, "fill-raises-%s" % type(e).__name__, "fill(%r) raised %s: %s" % (v, type(e).__name__, e))
                 return fails
         elif op[0] == "c":
-            got = outcome(el)
+            got = outcome(el, label)
             for clause, detail in compare(cfg.spec(pre, fills, env), got):
                 fail(phase, clause, "compute #%d %s" % (i, detail))
             after.append(("raise", got[1]) if got[0] == "raise" else ("yield", [canon_item(x) for x in got[1]]))
@@ -701,6 +712,7 @@ def run_history(label, ops):
                 with watchdog(2):
                     el.reset()
             except Timeout:
+                HANGS[label] += 1
                 fail("reset", "non-termination", "reset() did not return within 2 s")
                 return fails
             except Exception as e:
@@ -838,6 +850,8 @@ def body(R):
     for label, cfg in CONFIGS.items():
         for ln in range(lmax + 1):
             for letters in itertools.product(cfg.alphabet, repeat=ln):
+                if HANGS[label] >= 3:
+                    break
                 ops = cfg.concretize(letters)
                 fails = run_history(label, ops)
                 R.case(any(o[0] == "f" for o in ops), {"config": label, "ops": ops} if ln == 3 else None)
@@ -853,6 +867,8 @@ def body(R):
         vals = [1e8 if x == 1e16 else -1e8 if x == -1e16 else x for x in alpha] if label.startswith("Variance") else alpha
         for ln in range(nmax + 1):
             for seq in itertools.product(vals, repeat=ln):
+                if HANGS[label] >= 3:
+                    break
                 ops = [["f", x, None] for x in seq]
                 if ln % 2:
                     ops[-1][2] = {"k": ln}
@@ -868,7 +884,9 @@ def body(R):
             % (nrand, maxlen), False)
     for label, cfg in CONFIGS.items():
         for _ in range(nrand):
-            ops = cfg.random_ops(rng, maxlen)
+            ops = cfg.random_ops(rng, maxlen)      # drawn even when skipped: the later cases stay the same
+            if HANGS[label] >= 3:
+                continue
             fails = run_history(label, ops)
             R.case(any(o[0] == "f" for o in ops))
             report(R, label, ops, fails)
@@ -896,6 +914,8 @@ def body(R):
             if rng.random() < 0.3:
                 ops.insert(rng.randint(0, len(ops)), ["r"])
         label = "DSum[default]" if t % 4 else ("Mean[sum_seq=DSum]" if t % 8 else "DSum[start=2.5]")
+        if HANGS[label] >= 3:
+            continue
         fails = run_history(label, ops)
         R.case(bool(xs))
         report(R, label, ops, fails)
